@@ -510,3 +510,9 @@ def coq_equation(c, mr):
             mr, lambda v: "(mk_parsed %s %s %s %s, %s)" % (coq_bytes(v[0][0]), coq_bytes(v[0][1]), coq_bytes(v[0][2]),
                                                             coq_tx(txgen.norm_tx(v[0][3])), coq_bytes(v[1]))))
     return None
+
+
+# ops whose answer must not depend on the concrete bytes-like type of their arguments (they agree on the pinned tree;
+# tools/bytearray_probe.py); common.py re-runs a sample of their cases with bytearray arguments
+BYTEARRAY_OPS = {'cs_dec', 'txout_deser', 'txin_default', 'outpoint', 'txout', 'tx_deser', 'txin_deser', 'txin'}
+MEMORYVIEW_OPS = {'tx_deser', 'txout', 'txin_deser', 'cs_dec', 'txout_deser'}
